@@ -53,12 +53,23 @@ def escape : Bytes → Bytes
   | [] => []
   | c :: cs => if c == 92 || c == 46 then 92 :: c :: escape cs else c :: escape cs
 
+/-- an empty string, number or binary value -/
+def emptyValue : AV → Bool
+  | .s x | .n x | .b x => x.isEmpty
+  | _ => false
+
+/-- `keySchema.getKeyAttributeValue`: a primary key attribute cannot be empty -/
+def keyAttrValue (ks : KeySchema) (attrs : List (Bytes × Bytes)) (item : Item) (field : Bytes) : Except KeyErr Bytes := do
+  let s ← itemValue attrs item field
+  if !ks.secondary && ((alookup field item).map emptyValue).getD false then throw .invalidType
+  pure s
+
 /-- `keySchema.getKeyValue` -/
 def keyValue (ks : KeySchema) (attrs : List (Bytes × Bytes)) (item : Item) : Except KeyErr Bytes := do
-  let h ← itemValue attrs item ks.hash
+  let h ← keyAttrValue ks attrs item ks.hash
   if ks.range.isEmpty then pure h
   else do
-    let r ← itemValue attrs item ks.range
+    let r ← keyAttrValue ks attrs item ks.range
     pure (escape h ++ [46] ++ r)
 
 /-- `keySchema.GetKey`: secondary indexes are sparse, a missing attribute is the empty key -/
